@@ -32,6 +32,45 @@ FORBIDDEN = re.compile(
     r"\bsorry\b|\badmit\b|^\s*axiom\s|native_decide|bv_decide|implemented_by|\bunsafe\s|maxHeartbeats\s+0\b")
 
 # ----------------------------------------------------------------------------
+# Numba cache: keyed by the content of the whole package
+
+
+def repo_digest():
+    """content hash of every .py file under REPO/quantecon.  Numba's on-disk cache is keyed by the stamp of the
+    file that defines a jitted function only, so a change in a *callee's* file (e.g. optimize/pivoting.py under
+    linprog_simplex) would otherwise keep running the stale machine code.  Every run therefore uses a cache
+    directory named after this digest: a changed tree never sees another tree's kernels."""
+    h = hashlib.sha256()
+    root = os.path.join(REPO, "quantecon")
+    for d, dirs, fs in sorted(os.walk(root)):
+        dirs.sort()
+        for f in sorted(fs):
+            if f.endswith(".py"):
+                fp = os.path.join(d, f)
+                h.update(os.path.relpath(fp, root).encode())
+                try:
+                    h.update(open(fp, "rb").read())
+                except OSError:
+                    h.update(b"?")
+    return h.hexdigest()[:16]
+
+
+def numba_cache_dir(tag="main"):
+    """digest-keyed cache directory; older digests of the same tag are removed (disk is limited)"""
+    import shutil
+    base = os.environ.get("VERIF_NUMBA_BASE") or os.path.join(VERIF, ".cache", "numba")
+    dig = repo_digest()
+    d = os.path.join(base, tag, dig)
+    parent = os.path.dirname(d)
+    if os.path.isdir(parent):
+        for other in os.listdir(parent):
+            if other != dig:
+                shutil.rmtree(os.path.join(parent, other), ignore_errors=True)
+    os.makedirs(d, exist_ok=True)
+    return d
+
+
+# ----------------------------------------------------------------------------
 # wire encoding
 
 
